@@ -341,6 +341,11 @@ class VM:
         except _JSThrow as e:
             # A throw that crossed native code: look for the handler again from here
             self._throw(e.value, locate=False)
+        except RecursionError:
+            # Native code nested (callbacks in callbacks, a matcher recursing on nested
+            # lookarounds ...) until the host stack was used up: that is this engine's
+            # stack too
+            raise MemoryLimitError("Memory limit exceeded: native calls nested too deeply")
         except (MemoryLimitError, TimeLimitError):
             raise
         except JSError as e:
